@@ -87,7 +87,7 @@ Record tables := mkT {
   t_redirect_fallback : N;
   t_ft : sstate -> dtree;          (* frontend timer, per stream state *)
   t_bt : dtree;                    (* backend timer, per linked stream *)
-  t_end_arm : bool -> atag -> list eff;   (* true = H2 frontend *)
+  t_end_arm : bool -> atag -> dtree;      (* true = H2 frontend *)
   t_default_effs : list eff;
   t_force_effs : list eff;
   t_known_codes : list N;          (* default_answer_for_code's own arms *)
@@ -106,8 +106,7 @@ Definition spec_esd : dtree :=
   Ite (BC CBackMainPhase)
       (Ite (BC CBackTerminated) (Leaf [EAct AForwardTerminated])
            (Ite (BNot (BC CKeepAliveBackend)) (Leaf [EAct ACloseDelimited])
-                (Ite (BNot (BC CBackConsumed)) (Leaf [EAct (ASendDefault 502)])
-                     (Leaf [EAct AForwardUnterminated]))))
+                (Leaf [EAct AForwardUnterminated])))
       (Ite (BC CFrontConsumed) (Leaf [EAct (ASendDefault 502)]) (Leaf [EAct AReconnect])).
 
 (** documented status per cause (doc: 404 no route, 401 denied, 421 wrong
@@ -142,13 +141,18 @@ Definition spec_bt : dtree :=
       (Ite (BNot (BC CBackConsumed)) (Leaf [EUnlink; EAns (Lit 504); EWrite])
            (Leaf [EUnlink; EForce; EWrite])).
 
-Definition spec_end_arm (h2 : bool) (a : atag) : list eff :=
+Definition spec_end_arm (h2 : bool) (a : atag) : dtree :=
   match a with
-  | TForwardTerminated => if h2 then [ESetState SUnlinked; EArm] else [ESetState SUnlinked; EInterestW; ESignalW]
-  | TCloseDelimited => if h2 then [ETerminate; ESetState SUnlinked; EArm] else [ESetState SUnlinked; EArm]
-  | TForwardUnterminated => [EForce]
-  | TSendDefault => [EAns Var]
-  | TReconnect => [ESetState SLink; ERelink]
+  | TForwardTerminated =>
+    Leaf (if h2 then [ESetState SUnlinked; EArm] else [ESetState SUnlinked; EInterestW; ESignalW])
+  | TCloseDelimited =>
+    Leaf (if h2 then [ETerminate; ESetState SUnlinked; EArm] else [ESetState SUnlinked; EArm])
+  | TForwardUnterminated =>
+    (* an HTTP/1 client that has received nothing yet is answered 502; an H2 client gets RST_STREAM *)
+    if h2 then Leaf [EForce]
+    else Ite (BNot (BC CBackConsumed)) (Leaf [EAns (Lit 502)]) (Leaf [EForce])
+  | TSendDefault => Leaf [EAns Var]
+  | TReconnect => Leaf [ESetState SLink; ERelink]
   end.
 
 Definition spec_known_codes : list N := [301; 302; 308; 400; 401; 404; 408; 421; 429; 502; 503; 504].
@@ -368,7 +372,7 @@ Definition back_lost (T : tables) (redir : option N) (s : stream) (c : conn) : s
     | Some a =>
       let var := match a with ASendDefault n => n | _ => 0 end in
       let s0 := match a with ACloseDelimited => set_clean s (negb (s_ka s)) | _ => s end in
-      let o := apply_effs T var redir (t_end_arm T (c_h2 c) (tag_of a))
+      let o := apply_effs T var redir (teval (valuation c s) (t_end_arm T (c_h2 c) (tag_of a)))
                           (mkO s0 (set_timers c (c_ftimer c) false) [] false false) in
       (* H1 CloseDelimited: the EOF already terminated the kawa in readable() *)
       let s1 := match a with
